@@ -521,6 +521,7 @@ def check_C10(ctx):
     sany(ctx, "Reader")
     cases = os.path.join(ctx.work, "reader.ndjson")
     reader_run(ctx, "hdr", 4 if thorough else 3, "none", cases, chunk=2, intr=0)
+    reader_run(ctx, "units", 4 if thorough else 3, "none", cases, chunk=2, intr=0)
     # the pinned reader splits UTF-16 text after every 0x0A byte: a violation of the model's invariant
     reader_run(ctx, "hdr", 2, "none", None, unit=False, expect_violation=True, inv=["ScheduleIndependent"])
     summ = harness(ctx, ["reader", "replay", "--prop", "C10"], cases_file=cases, name="reader-replay", timeout=3600)
